@@ -179,6 +179,9 @@ def degenerate():
 # --------------------------------------------------------------------------
 # direct oracle
 # --------------------------------------------------------------------------
+FIRST = {}
+
+
 def oracle(run, name, f, truth, meths, degenerate_case=False):
     n = f.size
     for m in meths:
@@ -188,6 +191,7 @@ def oracle(run, name, f, truth, meths, degenerate_case=False):
                             name.split(":")[0]) + ":" + m)
         try:
             cp = call(f, m)
+            FIRST.setdefault((name, m), cp)
         except BaseException as e:
             run.failing(SITE, key, f"{cfg}: raised {type(e).__name__}: {e} "
                         "instead of falling back to the middle of the data",
@@ -384,11 +388,28 @@ def check(run):
                    "int(n*.1) or int(n*.01) differs from n//10, n//100")
     meths = methods()
     # 1. direct oracle on full-size inputs
-    for name, f, truth in (model_curves(run.tier, small=False)
-                           + recorded_curves(run.tier, 1)):
+    curves_ = (model_curves(run.tier, small=False)
+               + recorded_curves(run.tier, 1))
+    for name, f, truth in curves_:
         oracle(run, name, f, truth, meths)
     for name, f in degenerate().items():
         oracle(run, "degenerate:" + name, f, None, meths, degenerate_case=True)
+    # ... nor on what was processed before (the degenerate arrays above):
+    # the first curves again, same answers
+    for name, f, truth in curves_[:3]:
+        for m in meths:
+            run.case({"input": name, "method": m, "again": True},
+                     kind="after-degenerate:" + m)
+            try:
+                again = call(f, m)
+            except BaseException as e:
+                again = f"{type(e).__name__}: {e}"
+            if again != FIRST.get((name, m), again):
+                run.failing(SITE, f"{name}|{m}|history",
+                            f"{name}, {m}: {FIRST[(name, m)]!r} at first, "
+                            f"{again!r} after the degenerate arrays were "
+                            "processed", payload={"kind": "rerun"},
+                            theorem="C08_valid_*")
     curve_history(run)
     # unknown method
     try:
